@@ -1210,7 +1210,10 @@ class VM:
             if key_str == "name":
                 return obj.name
             if key_str == "prototype":
-                return getattr(obj, "_prototype", UNDEFINED) or UNDEFINED
+                if getattr(obj, "_prototype", None) is None:
+                    # (what the script stored there, when that was not an object)
+                    return getattr(obj, "_prototype_value", UNDEFINED)
+                return obj._prototype
             if key_str in obj.properties:
                 return obj.properties[key_str]
             # Functions inherit from Object.prototype (hasOwnProperty, valueOf, ...)
@@ -2371,6 +2374,7 @@ class VM:
             if key_str == "prototype":
                 # new F() links instances to this object
                 obj._prototype = value if isinstance(value, JSObject) else None
+                obj._prototype_value = value
             else:
                 obj.properties[key_str] = value
         elif isinstance(obj, JSObject):
